@@ -97,7 +97,7 @@ def valid_name(name):
         isinstance(name, str)
         and len(name) > 0
         and len(name) < 81
-        and not re.search(r"[\x00-\x1f\x7f-\x9f <>{}[\]?*\"#%\\^|~`$&,;:/]", name)
+        and not re.search(r"[\n <>{}[\]?*\"#%\\^|~`$&,;:/]", name)
     )
 
 def valid_role_arn(arn):
